@@ -70,7 +70,14 @@ def schema_text(tps, where, nested):
            'xpath="%sr"/>%s</xs:keyref><xs:unique name="U"><xs:selector xpath="%su"/>%s</xs:unique>'
            % (px, fields, px, px, fields, px, fields))
     rows = row_decl('k') + row_decl('r') + row_decl('u')
-    if nested:
+    if nested == 'ref':
+        # XSD 1.1: a second scope element of the SAME named type that REFERS to the constraints of the first
+        refs = '<xs:key ref="%sK"/><xs:keyref ref="%sR"/><xs:unique ref="%sU"/>' % (px, px, px)
+        body = ('<xs:complexType name="SecT"><xs:sequence>%s</xs:sequence></xs:complexType>'
+                '<xs:element name="root"><xs:complexType><xs:choice maxOccurs="unbounded"><xs:element name="sec" '
+                'type="%sSecT">%s</xs:element><xs:element name="sec2" type="%sSecT">%s</xs:element></xs:choice>'
+                '</xs:complexType></xs:element>' % (rows, px, idc, px, refs))
+    elif nested:
         body = ('<xs:element name="root"><xs:complexType><xs:sequence><xs:element name="sec" maxOccurs="unbounded">'
                 '<xs:complexType><xs:sequence>%s</xs:sequence></xs:complexType>%s</xs:element></xs:sequence>'
                 '</xs:complexType></xs:element>' % (rows, idc))
@@ -98,6 +105,9 @@ def doc_text(tps, where, nested, scopes):
         return ''.join(row_xml('k', tps, where, x) for x in k) + ''.join(row_xml('r', tps, where, x) for x in r) + \
             ''.join(row_xml('u', tps, where, x) for x in u)
     ns = ' xmlns:p="urn:n" xmlns:q="urn:n"' + (' xmlns="urn:n"' if any('/default' in t for t in tps) else '')
+    if nested == 'ref':
+        return '<root%s>%s</root>' % (ns, ''.join('<%s>%s</%s>' % (('sec2', sec(s), 'sec2') if i % 2 else ('sec', sec(s), 'sec'))
+                                                  for i, s in enumerate(scopes)))
     if nested:
         return '<root%s>%s</root>' % (ns, ''.join('<sec>%s</sec>' % sec(s) for s in scopes))
     return '<root%s>%s</root>' % (ns, sec(scopes[0]))
@@ -148,6 +158,8 @@ def judge(ver, tps, where, nested, scopes, s, st, xsd):
     st.case()
     doc = doc_text(tps, where, nested, scopes)
     exp, classes, nt = oracle(tps, scopes)
+    if nested == 'ref' and any(len(sc[1]) > 0 for i, sc in enumerate(scopes) if i % 2):
+        classes = classes + ['xsd11-referenced-keyref']      # a keyref row inside the scope that uses ref=
     kf = core.findings(PROPERTY)
     if 'unique-partial-tuple(unspecified)' in classes:
         st.cls('unspecified:unique with partly absent fields')
@@ -179,22 +191,40 @@ def tables(nf, maxk, maxr, maxu):
 
 # ------------------------------------------------------------------------------------ ID / IDREF
 
-ID_XSD = ('<xs:schema xmlns:xs="%s"><xs:element name="root"><xs:complexType><xs:sequence><xs:element name="n" '
-          'minOccurs="0" maxOccurs="unbounded"><xs:complexType><xs:attribute name="id" type="xs:ID"/><xs:attribute '
-          'name="ref" type="xs:IDREF"/><xs:attribute name="refs" type="xs:IDREFS"/></xs:complexType></xs:element>'
-          '<xs:element name="i" type="xs:ID" minOccurs="0" maxOccurs="unbounded"/></xs:sequence></xs:complexType>'
-          '</xs:element></xs:schema>' % XS)
+_ID_ATTRS = ('<xs:attribute name="id" type="xs:ID"/><xs:attribute name="ref" type="xs:IDREF"/><xs:attribute name="refs" '
+             'type="xs:IDREFS"/>')
+# the element that carries the ID / IDREF attributes: empty, simple-content, element-only or mixed complex type
+ID_CARRIERS = {
+    'empty': ('<xs:complexType>%s</xs:complexType>' % _ID_ATTRS, ''),
+    'simple': ('<xs:complexType><xs:simpleContent><xs:extension base="xs:string">%s</xs:extension></xs:simpleContent>'
+               '</xs:complexType>' % _ID_ATTRS, 'txt'),
+    'elemonly': ('<xs:complexType><xs:sequence><xs:element name="c" minOccurs="0"/></xs:sequence>%s</xs:complexType>'
+                 % _ID_ATTRS, '<c/>'),
+    'mixed': ('<xs:complexType mixed="true"><xs:sequence><xs:element name="c" minOccurs="0"/></xs:sequence>%s'
+              '</xs:complexType>' % _ID_ATTRS, 'a<c/>b'),
+}
 
 
-def judge_ids(ver, st):
+def id_xsd(carrier='empty'):
+    return ('<xs:schema xmlns:xs="%s"><xs:element name="root"><xs:complexType><xs:sequence><xs:element name="n" '
+            'minOccurs="0" maxOccurs="unbounded">%s</xs:element>'
+            '<xs:element name="i" type="xs:ID" minOccurs="0" maxOccurs="unbounded"/></xs:sequence></xs:complexType>'
+            '</xs:element></xs:schema>' % (XS, ID_CARRIERS[carrier][0]))
+
+
+ID_XSD = id_xsd()
+
+
+def judge_ids(ver, st, carrier='empty'):
     out = []
-    s = (xmlschema.XMLSchema11 if ver == '11' else xmlschema.XMLSchema10)(ID_XSD)
+    s = (xmlschema.XMLSchema11 if ver == '11' else xmlschema.XMLSchema10)(id_xsd(carrier))
+    inner = ID_CARRIERS[carrier][1]
     idopts = [None, 'a', 'b', ' a ']
     refopts = [None, 'a', 'b', 'c']
     refsopts = [None, 'a b', 'a c', 'b  a']
     nodes = list(itertools.product(idopts, refopts, refsopts))
     rnd = random.Random(5)
-    combos = [(x,) for x in nodes] + rnd.sample(list(itertools.product(nodes, repeat=2)), 1500)
+    combos = [(x,) for x in nodes] + rnd.sample(list(itertools.product(nodes, repeat=2)), 1500 if carrier == 'empty' else 500)
     for combo in combos:
         for extra_i in (None, 'a', 'z'):
             st.case()
@@ -211,7 +241,7 @@ def judge_ids(ver, st):
                 if rs is not None:
                     a += ' refs="%s"' % rs
                     refs += rs.split()
-                body += '<n%s/>' % a
+                body += '<n%s>%s</n>' % (a, inner)
             if extra_i:
                 body += '<i>%s</i>' % extra_i
                 ids.append(extra_i)
@@ -221,9 +251,10 @@ def judge_ids(ver, st):
                 st.nt((ver, 'ids', doc))
             got = s.is_valid(doc)
             if got != exp:
-                out.append({'kind': 'id_idref', 'input': {'ver': ver, 'doc': doc}, 'expected': 'valid' if exp else 'invalid',
+                out.append({'kind': 'id_idref', 'input': {'ver': ver, 'doc': doc, 'carrier': carrier},
+                            'expected': 'valid' if exp else 'invalid',
                             'observed': 'valid' if got else 'invalid', 'classes': [],
-                            'key': 'ids|%s|%s' % (ver, doc)})
+                            'key': 'ids|%s|%s|%s' % (ver, carrier, doc)})
     return out
 
 
@@ -233,12 +264,16 @@ TEMPLATES = [(tps, where, nested)
              for tps in [(t,) for t in SPELL] + [('xs:decimal', 'xs:string'), ('xs:integer', 'xs:boolean'),
                                                   ('xs:QName', 'xs:decimal'), ('xs:QName/default', 'xs:integer')]
              for where in ('attr', 'elem') for nested in (False, True)]
+# XSD 1.1 only: constraints used through ref= by a second scope element
+TEMPLATES += [(tps, where, 'ref') for tps in [('xs:integer',), ('xs:decimal', 'xs:string')] for where in ('attr', 'elem')]
 
 
 def shards(tier, seed):
     out = []
     for ver in ('10', '11'):
         for i in range(len(TEMPLATES)):
+            if TEMPLATES[i][2] == 'ref' and ver != '11':
+                continue
             out.append(('tpl', ver, i, tier, seed))
         out.append(('ids', ver))
     return out
@@ -248,7 +283,9 @@ def run_shard(desc):
     st = core.Stats()
     recs = []
     if desc[0] == 'ids':
-        recs = judge_ids(desc[1], st)
+        recs = []
+        for carrier in ID_CARRIERS:
+            recs += judge_ids(desc[1], st, carrier)
         st.sample({'doc': '<root><n id="a" ref="b"/><n id=" a " refs="a c"/></root>'})
     else:
         _, ver, i, tier, seed = desc
@@ -269,7 +306,12 @@ def run_shard(desc):
             cases = []
             for _ in range(n):
                 nsc = rnd.choice([1, 2, 2, 3]) if nested else 1
-                cases.append([(rnd.choice(K3), rnd.choice(R3), rnd.choice(U3)) for _ in range(nsc)])
+                case = [(rnd.choice(K3), rnd.choice(R3), rnd.choice(U3)) for _ in range(nsc)]
+                if nested == 'ref' and rnd.random() < .7:
+                    # no key reference rows in the scopes that use ref= (those tables are a listed finding): keeps the
+                    # key / unique tables of the referencing scope in the asserted part
+                    case = [(k_, () if i % 2 else r_, u_) for i, (k_, r_, u_) in enumerate(case)]
+                cases.append(case)
         for scopes in cases:
             recs += judge(ver, tps, where, nested, scopes, s, st, xsd)
         st.sample({'ver': ver, 'field types': tps, 'fields on': where, 'nested scope': nested,
@@ -284,7 +326,7 @@ def replay(record):
     st = core.Stats()
     inp = record['input']
     if record['kind'] == 'id_idref':
-        s = (xmlschema.XMLSchema11 if inp['ver'] == '11' else xmlschema.XMLSchema10)(ID_XSD)
+        s = (xmlschema.XMLSchema11 if inp['ver'] == '11' else xmlschema.XMLSchema10)(id_xsd(inp.get('carrier', 'empty')))
         got = s.is_valid(inp['doc'])
         return [dict(record, observed='valid' if got else 'invalid')] if (got != (record['expected'] == 'valid')) else []
     tps = tuple(inp['types'])
@@ -293,6 +335,8 @@ def replay(record):
     s = (xmlschema.XMLSchema11 if inp['ver'] == '11' else xmlschema.XMLSchema10)(xsd)
     doc = doc_text(tps, inp['where'], inp['nested'], scopes)
     exp, classes, _ = oracle(tps, scopes)
+    if inp['nested'] == 'ref' and any(len(sc[1]) > 0 for i, sc in enumerate(scopes) if i % 2):
+        classes = classes + ['xsd11-referenced-keyref']
     got = s.is_valid(doc)
     if got != exp:
         return [{'kind': 'idc_verdict', 'input': inp, 'expected': 'valid' if exp else 'invalid',
